@@ -32,7 +32,7 @@ TEXTS = {
   "note": "latest-block-filter-hash quorum (the analogue above the last check point) is specified in FilterSync.tla (LatestQuorum) and exercised under C06",
  },
  "C10": {
-  "level": "Hostile.tla states the outcome alphabet of message handling: every delivery on the light-client, filter, sync or relay protocol and every tick is one step that returns (accept / ignore / ban / disconnect) with the stored tip safe (never lighter; a world block under real PoW), and the process has exactly one abort action, LongForkAbort, enabled only by a SendLastStateProof for a request carrying the long-fork flag.  On the real client a fine-grained honest history is stopped at a random point (peers without state, announced, requested, proved, with and without pending proof / filter / block / fetch requests) and hundreds of byte strings per scenario are delivered: random bytes, and honest messages (live answers to the outstanding requests, earlier traffic, fresh announcements, the client's own requests echoed, relay messages) truncated at every kind of position, extended, with rewritten union tag / size / offset words, with 1-32 byte windows set to 0 / 1 / 2^32-1 / 2^64-1 / 2^256-1 / sign-bit patterns, and with re-sealed verifiable headers (number, epoch incl. zero length and index >= length, compact target, timestamp, total difficulty, chain-root numbers at boundary values, extension and extra hash recomputed so that the chain-root check passes), interleaved with all ticks, connects, disconnects and honest steps so that accepted garbage is carried into request building and the next proofs.  A panic (catch_unwind, overflow checks on) is logged as a Panic record, which is a step of the specification only as LongForkAbort.",
+  "level": "Hostile.tla states the outcome alphabet of message handling: every delivery on the light-client, filter, sync or relay protocol and every tick is one step that returns (accept / ignore / ban / disconnect) with the stored tip never lighter, and the process has exactly one abort action, LongForkAbort, enabled only by a SendLastStateProof for a request carrying the long-fork flag.  On the real client a fine-grained honest history is stopped at a random point (peers without state, announced, requested, proved, with and without pending proof / filter / block / fetch requests) and hundreds of byte strings per scenario are delivered: random bytes, and honest messages (live answers to the outstanding requests, earlier traffic, fresh announcements, the client's own requests echoed, relay messages) truncated at every kind of position, extended, with rewritten union tag / size / offset words, with 1-32 byte windows set to 0 / 1 / 2^32-1 / 2^64-1 / 2^256-1 / sign-bit patterns, and with re-sealed verifiable headers (number, epoch incl. zero length and index >= length, compact target, timestamp, total difficulty, chain-root numbers at boundary values, extension and extra hash recomputed so that the chain-root check passes), interleaved with all ticks, connects, disconnects and honest steps so that accepted garbage is carried into request building and the next proofs.  A panic (catch_unwind, overflow checks on) is logged as a Panic record, which is a step of the specification only as LongForkAbort.",
   "ref": "DESIGN.md 4 C10", "technique": TLA,
   "note": "sampling of an infinite input space; nine panics found this way were repaired (KNOWN_FINDINGS.json fixed entries)",
  },
@@ -45,6 +45,11 @@ TEXTS = {
   "level": FS + "fetch_transaction / fetch_header / get_transaction answers are part of the logged events and must equal the status the specification computes from the fetch tables (added / fetching / not_found with re-add / fetched); FetchTick, honest SendBlocksProof / SendTransactionsProof (found, missing, newer tip), timeouts, disconnects and restarts must transform the tables as specified; NoOrphanFetch (a sent, not timed-out, not missing entry is always held by some peer's request) and FetchedTruthful (a committed answer names a stored header of the block that contains the transaction) are invariants on every logged state, across fork switches.",
   "ref": "DESIGN.md 4 C16", "technique": TLA,
   "note": "pending-pool status is covered by C18; known finding KF-C16-txheight",
+ },
+ "C14": {
+  "level": "Difficulty.tla transcribes verify_tau and verify_total_difficulty (tau exponent, split of the epochs, estimated limits with their short circuits) and states the demand: MustReject (decrease, mismatch within one epoch / across one switch, epoch difficulty or total moving faster than tau per epoch) and the tight envelope every legal history lies in.  MC_Difficulty is the chain's difficulty history as a transition system (epochs of length 1-3 and block difficulty up to 8 appended one at a time, every switch within tau, up to 5 epochs): in every reachable history every pair of positions must pass VerifyTau, lie in the tight envelope, not be in MustReject and be accepted by VerifyTotalDifficulty; an exhaustive grid of arbitrary inputs checks MustReject => reject.  Trace_Difficulty binds the real functions to the transcription: on tens of thousands of logged calls (grid inputs incl. malformed positions and epochs out of order, totals around every bound; random legal histories logged with the history as witness, which TLC re-checks) the real verdicts of both functions must EQUAL the specified ones; legal histories with up to 3000 epochs and 12-200-bit difficulties must be accepted and arbitrary 64/256-bit numbers must not abort.",
+  "ref": "DESIGN.md 4 C14", "technique": TLA,
+  "note": "known finding KF-C14-envelope (the split-based estimate rejects some legal histories); the aborts on peer-supplied numbers were repaired",
  },
  "C15": {
   "level": "Sampling.tla states well-formedness of GetLastStateProof over the order structure of the difficulties; PeerSync.tla applies it (SamplesOk / ReqOk incl. the rebase rule) to EVERY request the real client sends in the sync drivers, and Trace_Sampling.tla to the real build_prove_request_content(_from_genesis) called over a grid of 109 (blocks, lastN) rows x random 2^64-scale numbers and 8..250-bit difficulties, with and without a previous proof and remembered last-N headers; the number of distinct samples is compared with a table computed in exact arithmetic; the must-refuse cases must return None.",
